@@ -66,5 +66,10 @@ func DefaultParser[T constraint.ParserInput](input T, r Rule) (date Date, err er
 	year, _ := strconv.Atoi(string(parts[1]))
 	month, _ := strconv.Atoi(string(parts[2]))
 	day, _ := strconv.Atoi(string(parts[3]))
-	return New(year, Month(month), day), nil
+	date = New(year, Month(month), day)
+	if y, m, d := date.Date(); y != year || int(m) != month || d != day {
+		// month 00 or a day the month does not have (e.g. 02-30): New would roll over into another date
+		return Date{}, newParseError(funcName, input, nil)
+	}
+	return date, nil
 }
